@@ -40,6 +40,7 @@ STRATS = [
     ("pct", {"d": 1}), ("pct", {"d": 2}), ("pct", {"d": 3}),
     ("pb", {"d": 1}), ("pb", {"d": 2}), ("pb", {"d": 3}),
     ("rd", {"q": 0.1}), ("rd", {"q": 0.25}), ("rd", {"q": 0.5}),
+    ("site", {"site_mod": 60}), ("site", {"site_mod": 150}), ("site", {"site_mod": 400}),
 ]
 
 
@@ -55,6 +56,8 @@ def draw_sim_cfg(rng, est=600, stall_ok=False, line_ok=True):
         # calibrated placement: measure the length of this very workload under a non-pre-emptive
         # schedule first, then draw the pre-emption / priority-change points uniformly over it
         cfg["calibrate"] = rng.random() < 0.3
+    elif s == "site":
+        cfg["line_q"] = 1.0 if line_ok else 0.0
     elif s == "rd":
         cfg["line_q"] = 0.0
         cfg["max_hold"] = (50, 300, 2000)[splitmix64(cfg["seed"] ^ 0x5bd1e995) % 3]
@@ -112,6 +115,17 @@ def execute(mod, spec, trace=None, stalls=None, strict=True):
         except Exception as e:  # a bug in an oracle is a harness error, never a verdict
             import traceback
             r.harness_error = "oracle crashed: " + traceback.format_exc()[-1500:]
+    if r.harness_error is None and sim.outcome and sim.outcome[0] in ("deadlock", "stuck") and getattr(mod, "PROP", "") != "C04":
+        # the history oracles of a property do not judge a run that was cut short - but a run cut
+        # short because threads block each other for ever on locks is itself a failure of whatever
+        # the workload was exercising (the outcome the property promises never arrives).  Same
+        # signatures as C04's oracle, so that a listed finding is recognised here too.
+        try:
+            from harness.oracles import deadlock_violations
+            r.viol = list(r.viol) + deadlock_violations(sim, include_client_blocked=False)
+        except Exception:
+            import traceback
+            r.harness_error = "oracle crashed: " + traceback.format_exc()[-1500:]
     r.sha = sim.log_sha()
     return r
 
@@ -164,6 +178,8 @@ def worker_main(prop, tier, vseed, start, count, stride, wall_s):
         if spec["sim"].get("stall_p"):
             st["probes"]["fault:thread-stall(runs)"] = st["probes"].get("fault:thread-stall(runs)", 0) + 1
             st["probes"]["fault:thread-stall(fired)"] = st["probes"].get("fault:thread-stall(fired)", 0) + len(sim.stalls)
+        if spec["sim"]["strategy"] == "rd":
+            st["probes"]["rd:two-threads-met-at-one-lock"] = st["probes"].get("rd:two-threads-met-at-one-lock", 0) + getattr(sim.chooser, "conflicts", 0)
         if spec["sim"].get("coalesce_ns"):
             st["probes"]["fault:late-timer-wake(runs)"] = st["probes"].get("fault:late-timer-wake(runs)", 0) + 1
             st["probes"]["fault:late-timer-wake(timers fired together)"] = st["probes"].get("fault:late-timer-wake(timers fired together)", 0) + sim.coalesced
@@ -236,7 +252,7 @@ def match_finding(findings, prop, sig):
     for fd in findings:
         if fd.get("status") != "open":
             continue
-        if prop not in fd.get("properties", [fd.get("property")]):
+        if prop not in fd.get("properties", [fd.get("property")]) and not fd.get("any_property"):
             continue
         for s in fd.get("signatures", []):
             if sig == s:
@@ -601,6 +617,10 @@ def check_main(prop, tier, replay=None, search=0):
         if fd["id"] in known_reported:
             print("KNOWN-FINDING: property=%s %s [%s] (%s; %d matching runs in this exploration)" % (
                 prop, fd["what_fails"], fd["id"], known_reported[fd["id"]], known_hits.get(fd["id"], 0)))
+        elif known_hits.get(fd["id"]):
+            # a finding listed for another property that also showed in this check's workload
+            print("KNOWN-FINDING: property=%s %s [%s] (listed under %s; %d matching runs in this exploration)" % (
+                prop, fd["what_fails"], fd["id"], ",".join(fd.get("properties", [])), known_hits[fd["id"]]))
 
     if harness:
         print("HARNESS-ERROR %d runs failed inside the harness; first: %s" % (len(harness), harness[0]["err"][:1500]))
@@ -689,7 +709,7 @@ def write_evidence(mod, prop, tier, vseed, agg, wall_s, n_new, known_hits, known
         "real_vs_stub": {
             "more_executors/** (from %s)" % os.environ.get("VERIF_REPO", "/repo"): "real",
             "concurrent.futures._base / .thread": "real stdlib code on simulated primitives",
-            "threading.{Lock,RLock,Condition,Event,Semaphore,Thread}, queue.SimpleQueue, time.monotonic": "simulated",
+            "threading.{Lock,RLock,Condition,Event,Semaphore,Thread,Timer}, queue.{SimpleQueue,Queue,LifoQueue,PriorityQueue}, time.{monotonic,sleep,time}": "simulated (module globals rebound from /verif; function-local imports inside more_executors.* hooked)",
             "delegate executor": "real ThreadPoolExecutor / SyncExecutor and scripted SpyExecutor, per run",
             "prometheus_client": "stub (sim/promstub): PrometheusMetrics code paths run in every check",
             "logging": "real, disabled",
